@@ -23,5 +23,5 @@ func TestC08(t *testing.T) {
 	// the same property at the level of the blob access: a flipped byte on the medium is read through the real
 	// flat CAS store; objects at or below the quarantined block must no longer be served or reported present
 	stx.Corruption = 8
-	stx.Main(run, model, "C08store", []string{"C08"}, []string{"flat", "flati", "hier"}, 1200, 24000)
+	stx.Main(run, model, "C08store", []string{"C08"}, []string{"flat", "flati", "hier"}, 2500, 24000)
 }
